@@ -97,6 +97,9 @@ extern "C" void harness(void)
   vs_observe(verdict); vs_observe(expect); vs_observe(FA::reachable(A)); vs_observe(FA::coreachable(B));
 #endif
 #ifdef VS_WITNESS
+#ifdef WITNESS_VERDICT          // manual non-degeneracy probe of a universe: both verdicts must be reachable
+  vs_assume(verdict == (bool)WITNESS_VERDICT);
+#endif
   vs_reach();
 #endif
 }
